@@ -68,6 +68,12 @@ claim("C06", "model-based property testing of password-change histories (rapid) 
       "the token is spent, the account's server-side remember set is empty, every other account and its tokens are untouched; every later /login outcome must equal the model password.",
       TRUST)
 
+claim("C09", "model-based property testing of idle/expiry histories (rapid) against a model of last activity per browser, virtual time by ageing",
+      WM + "expire machine: ExpireAfter 5 s-24 h, generated whitelists, sessions carrying application keys, pending 2FA logins, 2FA-setup secrets and OAuth2 state; gaps on either side of ExpireAfter. "
+      "Oracle: a request arriving later than ExpireAfter after the model's last activity must show the downstream probe no current user and no non-whitelisted key, keep whitelisted keys visible, and leave only whitelisted keys in the client's session; "
+      "a request arriving sooner is served as the session user and refreshes the stamp; logins that fire the auth event stamp the clock.",
+      TRUST)
+
 NOT_YET = "check not built yet in this round (claimed in DESIGN.md; will be claimed once its check is committed)"
 
 def main():
